@@ -81,6 +81,8 @@ def gen_instance(rng, big: bool = False, terminals: bool = False) -> dict:
             mods.append({"name": f"H{i}", "kind": "hard", "rects": rects})
         else:
             mods.append({"name": f"T{i}", "kind": "terminal", "center": [rng.choice([0.0, W]), rng.uniform(0, H)]})
+    if terminals and not any(m["kind"] == "terminal" for m in mods):
+        mods.append({"name": "T99", "kind": "terminal", "center": [rng.choice([0.0, W]), rng.uniform(0, H)]})
     for i in range(nfix):
         bi, bj = rng.randrange(int(W) // 2), rng.randrange(int(H) // 2)
         if (bi, bj) in blocks:
@@ -244,8 +246,8 @@ def check_layout_run(ctx: Ctx, inp: dict, judge: bool = True) -> None:
     Rectangle.undefine_epsilon()
     try:
         spec = SP.Spectral(yaml_text(inp))
-    except AssertionError:
-        ctx.count("build-rejected")
+    except Exception as ex:  # netlist construction is not C14's code: counted, not judged
+        ctx.count("build-rejected:" + type(ex).__name__)
         return
     W, H, nf = inp["W"], inp["H"], inp["nfl"]
     size = max(W, H)
@@ -259,7 +261,7 @@ def check_layout_run(ctx: Ctx, inp: dict, judge: bool = True) -> None:
     with Patched() as p:
         try:
             spec.spectral_layout(Shape(W, H), nf, False)
-        except (AssertionError, ZeroDivisionError, ValueError) as ex:
+        except Exception as ex:
             exc = ex
     ctx.case("slayout", (tuple(tok0), W, H, nf, inp["seed"]), True,
              sample={"n": n, "nfl": nf, "seed": inp["seed"], "iters": [t[2] for t in p.trials][:2]})
@@ -275,7 +277,7 @@ def check_layout_run(ctx: Ctx, inp: dict, judge: bool = True) -> None:
     rep = ctx.model([req])
     if exc is not None:
         if judge:
-            ctx.spec_fail("layout:returns", inp, {"exception": type(exc).__name__, "msg": str(exc)[:120]}, size=n)
+            ctx.spec_fail("operation-raised", inp, {"op": "Spectral.spectral_layout", "exception": type(exc).__name__, "msg": str(exc)[:120]}, size=n)
         if rep is not None and rep[0] != err_of(exc):
             ctx.disagree("slayout", inp, err_of(exc), rep[0][:200], size=n)
         return
@@ -373,8 +375,8 @@ def check_sld(ctx: Ctx, inp: dict) -> None:
     Rectangle.undefine_epsilon()
     try:
         spec = SP.Spectral(yaml_text(inp))
-    except AssertionError:
-        ctx.count("build-rejected")
+    except Exception as ex:  # netlist construction is not C14's code: counted, not judged
+        ctx.count("build-rejected:" + type(ex).__name__)
         return
     W, H = inp["W"], inp["H"]
     fixed = list(spec._fixed_modules)
@@ -385,7 +387,7 @@ def check_sld(ctx: Ctx, inp: dict) -> None:
         try:
             coord, wl, iters = SA.spectral_layout_die(spec._adj, spec._mass, [W, H], init, fixed)
             impl = None
-        except (AssertionError, ZeroDivisionError, ValueError) as ex:
+        except Exception as ex:
             impl = err_of(ex)
     req = (f"F sld {adj_tokens(spec._adj)} {vec(spec._mass)} {f2hex(W)} {f2hex(H)} {vec(init[0])} {vec(init[1])} "
            f"{bools(fixed)} {vec(p.rec.draws)} 10000")
@@ -435,7 +437,7 @@ def check_units(ctx: Ctx) -> None:
     def run_py(f):
         try:
             return f()
-        except (AssertionError, ZeroDivisionError, ValueError) as ex:
+        except Exception as ex:
             return err_of(ex)
 
     for _ in range(ctx.n(80, 600)):
@@ -561,6 +563,9 @@ def check_delta_escape(ctx: Ctx) -> None:
             SA.normalize(y, span, fixed)
         except ValueError:
             continue
+        except Exception as ex:
+            ctx.spec_fail("operation-raised", {"op": "normalize", "x": x, "span": span, "fixed": fixed}, {"exception": type(ex).__name__}, size=n)
+            continue
         ctx.case("delta-probe", (tuple(x), tuple(span), tuple(fixed)), True)
         for i in range(n):
             if fixed[i]:
@@ -597,7 +602,7 @@ def run(ctx: Ctx) -> None:
     check_units(ctx)
     check_delta_escape(ctx)
     t0 = time.time()
-    budget = 12 if ctx.tier == "quick" else 150
+    budget = 9 if ctx.tier == "quick" else 150
     for i in range(ctx.n(40, 600)):
         if time.time() - t0 > budget * ctx.budget:
             ctx.notes.append(f"sld stream stopped by its time budget after {i} runs")
@@ -609,7 +614,7 @@ def run(ctx: Ctx) -> None:
         inp["stream"] = "sld"
         check_sld(ctx, inp)
     t0 = time.time()
-    budget = 40 if ctx.tier == "quick" else 500
+    budget = 30 if ctx.tier == "quick" else 500
     for i in range(ctx.n(70, 2000)):
         if time.time() - t0 > budget * ctx.budget:
             ctx.notes.append(f"slayout stream stopped by its time budget after {i} runs")
@@ -639,8 +644,8 @@ def replay(ctx: Ctx, body: dict) -> None:
             try:
                 SA.normalize(y, inp["span"], inp["fixed"])
                 impl = y
-            except ValueError:
-                impl = "err:ValueError"
+            except Exception as ex:
+                impl = err_of(ex)
             rep = ctx.model([f"F normalize {vec(inp['x'])} {vec(inp['span'])} {bools(inp['fixed'])}"])
             got = rep[0] if rep else None
             if got is not None and not isinstance(impl, str) and not got.startswith("err"):
